@@ -172,14 +172,29 @@ func c17ReadMessage(r *eng.Run, retained *[]func() string) string {
 	cfg := ReadCfg{App: AppReadMessage, Side: side}
 	model := Model(s, cfg)
 	var all []wsutil.Message
+	// Either one growing slice, or the caller recycles its slice (msgs[:0])
+	// for every call while keeping the payloads it was handed earlier.
+	recycle := r.T.Bool(sim.LCfg)
+	var scratch []wsutil.Message
 	for {
 		var err error
+		if recycle {
+			scratch, err = wsutil.ReadMessage(p, cfg.State(), scratch[:0])
+			if err != nil {
+				break
+			}
+			all = append(all, scratch...)
+			continue
+		}
 		before := len(all)
 		all, err = wsutil.ReadMessage(p, cfg.State(), all)
 		if err != nil {
 			all = all[:before]
 			break
 		}
+	}
+	if recycle {
+		r.Probe("read_message_slice_recycled")
 	}
 	if len(all) != len(model) {
 		r.FailProp("C04", "missing_delivery", "ReadMessage delivered %d of %d units", len(all), len(model))
